@@ -154,6 +154,12 @@ def mutations(doc, rng=None, cap=None):
             if n["c"]:
                 # nesting: pull the first child out, in front of its parent
                 emit("unnest_first_child", path, at(lambda l, j: l.insert(j, l[j]["c"].pop(0))))
+                # … and the last child out, right after its parent: the same lines in the same order, only the
+                # indentation of one node changes
+                emit("unnest_last_child", path, at(lambda l, j: l.insert(j + 1, l[j]["c"].pop())))
+            if i + 1 < len(lst) and not (lst is doc["sections"] and is_seal(lst[i + 1])):
+                # the next sibling becomes the last child (indentation-only change as well)
+                emit("nest_next_sibling", path, at(lambda l, j: l[j]["c"].append(l.pop(j + 1))))
             emit("block_to_section" if n["n"] == "b" else "section_to_block", path,
                  at(lambda l, j: l.__setitem__(j, PD.S("1", l[j]["k"], l[j]["c"]) if l[j]["n"] == "b" else PD.B(l[j]["k"], l[j]["c"]))))
         if n["n"] == "a":
